@@ -84,10 +84,12 @@ package modbus
 //@   modifies nothing
 
 //@ iface modbus.Client.asProtocolErrorFunc(data []byte) (err error)
+//@   ensures dyntype(err) != *ClientError
 //@   candidates packet.AsTCPErrorPacket, packet.AsRTUErrorPacketWithCRC
 //@   modifies nothing
 
 //@ iface modbus.Client.parseResponseFunc(data []byte) (res packet.Response, err error)
+//@   ensures dyntype(err) != *ClientError
 //@   candidates packet.ParseTCPResponse, packet.ParseRTUResponseWithCRC
 //@   requires[C19] bpCount > parseCount ==> data == bpBuf
 //@   modifies nothing
@@ -101,6 +103,7 @@ package modbus
 //@   requires reads == hookReads && bwCount == writes && ghostsSane()
 //@   requires[C14] muState == 2
 //@   safety[C08,C07,C19]
+//@   structural[C08]
 //@   modifies[C08] nothing
 //@   modifies streamPos, reads, lastN, lastErr, lastBuf, hookReads, writes, bwCount, bwBuf, ctxErr, faults, flushes
 //@   fresh[C07] res
@@ -109,6 +112,7 @@ package modbus
 //@   ensures[C07] faults >= old(faults) && streamPos <= streamLen && streamPos >= old(streamPos)
 //@   ensures[C08] err != nil ==> isnil(res)
 //@   ensures[C08.classify] err != nil ==> dyntype(err) == *ClientError || err == ctxErr
+//@   ensures[C12] dyntype(err) != *packet.ErrorResponseRTU && dyntype(err) != *packet.ErrorResponseTCP
 //@   ensures[C07.progress] err != nil ==> faults > old(faults) || streamPos - old(streamPos) > 260 || (streamPos == old(streamPos) && expectedLen <= 0) || (dyntype(err) == *ClientError && ((tcpClient(c) && dyntype(err.(*ClientError).Err) == *packet.ErrorResponseTCP && streamPos - old(streamPos) == 9 && stream[old(streamPos)+7] & 128 != 0) || (rtuClient(c) && dyntype(err.(*ClientError).Err) == *packet.ErrorResponseRTU && streamPos - old(streamPos) == 5 && stream[old(streamPos)+1] & 128 != 0)))
 //@   ensures[C07.exception] tcpClient(c) && streamLen - old(streamPos) == 9 && stream[old(streamPos)+7] & 128 != 0 && expectedLen > 9 && faults == old(faults) ==> err != nil && dyntype(err) == *ClientError && dyntype(err.(*ClientError).Err) == *packet.ErrorResponseTCP && err.(*ClientError).Err.(*packet.ErrorResponseTCP).UnitID == stream[old(streamPos)+6] && err.(*ClientError).Err.(*packet.ErrorResponseTCP).Function == stream[old(streamPos)+7] - 128 && err.(*ClientError).Err.(*packet.ErrorResponseTCP).Code == stream[old(streamPos)+8]
 //@   ensures[C07.exception] rtuClient(c) && streamLen - old(streamPos) == 5 && stream[old(streamPos)+1] & 128 != 0 && crcTrailer(stream[old(streamPos):old(streamPos)+5], 5) && expectedLen > 5 && faults == old(faults) ==> err != nil && dyntype(err) == *ClientError && dyntype(err.(*ClientError).Err) == *packet.ErrorResponseRTU && err.(*ClientError).Err.(*packet.ErrorResponseRTU).UnitID == stream[old(streamPos)] && err.(*ClientError).Err.(*packet.ErrorResponseRTU).Function == stream[old(streamPos)+1] - 128 && err.(*ClientError).Err.(*packet.ErrorResponseRTU).Code == stream[old(streamPos)+2]
@@ -122,6 +126,8 @@ package modbus
 //@     modifies received, streamPos, reads, lastN, lastErr, lastBuf, hookReads, faults
 //@     invariant faults >= old(faults) && streamPos <= streamLen
 //@     invariant 0 <= total && total <= 260 && total == streamPos - old(streamPos)
+//@     invariant[C07] tcpClient(c) ==> !(total == 9 && received[7] & 128 != 0)
+//@     invariant[C07] rtuClient(c) ==> !(total == 5 && received[1] & 128 != 0 && crcTrailer(received[0:5], 5))
 //@     invariant forall k in 0..total :: received[k] == stream[old(streamPos) + k]
 //@     invariant c.hooks != nil ==> hookReads - old(hookReads) == reads - old(reads)
 //@     invariant writes == old(writes) + 1 && bwCount == old(bwCount) + ite(c.hooks != nil, int(1), int(0)) && bpCount == old(bpCount) && parseCount == old(parseCount)
@@ -141,6 +147,9 @@ package modbus
 //@   ensures[C08] req != nil && c.conn == nil ==> err != nil && dyntype(err) == *ClientError && err.(*ClientError).Err == ErrClientNotConnected.Err && writes == old(writes) && reads == old(reads)
 //@   ensures[C08.classify] err != nil ==> req == nil || dyntype(err) == *ClientError || err == ctxErr || parseCount > old(parseCount)
 //@   ensures[C14] muState == 0
+//@   ensures[C12] rtuClient(c) && err == nil ==> streamPos - old(streamPos) >= 4 && crcTrailer(stream[old(streamPos):streamPos], streamPos - old(streamPos))
+//@   ensures[C12] rtuClient(c) && dyntype(err) == *packet.ErrorResponseRTU ==> streamPos - old(streamPos) == 5 && crcTrailer(stream[old(streamPos):streamPos], 5)
+//@   ensures[C12] rtuClient(c) && dyntype(err) == *ClientError && dyntype(err.(*ClientError).Err) == *packet.ErrorResponseRTU ==> streamPos - old(streamPos) == 5 && crcTrailer(stream[old(streamPos):streamPos], 5)
 //@   ensures[C19] c.hooks != nil && parseCount > old(parseCount) ==> bpCount == old(bpCount) + 1 && parseCount == old(parseCount) + 1
 //@   ensures[C19] c.hooks != nil ==> hookReads - old(hookReads) == reads - old(reads)
 
@@ -219,10 +228,12 @@ package modbus
 //@   ghostset flushes := old(flushes) + 1
 
 //@ iface modbus.SerialClient.asProtocolErrorFunc(data []byte) (err error)
+//@   ensures dyntype(err) != *ClientError
 //@   candidates packet.AsRTUErrorPacketWithCRC
 //@   modifies nothing
 
 //@ iface modbus.SerialClient.parseResponseFunc(data []byte) (res packet.Response, err error)
+//@   ensures dyntype(err) != *ClientError
 //@   candidates packet.ParseRTUResponseWithCRC
 //@   requires[C19] bpCount > parseCount ==> data == bpBuf
 //@   modifies nothing
@@ -244,6 +255,7 @@ package modbus
 //@   requires reads == hookReads && bwCount == writes && ghostsSane()
 //@   requires[C14] muState == 2
 //@   safety[C08,C07,C19]
+//@   structural[C08]
 //@   modifies[C08] nothing
 //@   modifies streamPos, reads, lastN, lastErr, lastBuf, hookReads, writes, bwCount, bwBuf, ctxErr, faults, flushes
 //@   fresh[C07] res
@@ -252,6 +264,7 @@ package modbus
 //@   ensures[C07] faults >= old(faults) && streamPos <= streamLen && streamPos >= old(streamPos)
 //@   ensures[C08] err != nil ==> isnil(res)
 //@   ensures[C08.classify] err != nil ==> dyntype(err) == *ClientError || err == ctxErr
+//@   ensures[C12] dyntype(err) != *packet.ErrorResponseRTU && dyntype(err) != *packet.ErrorResponseTCP
 //@   ensures[C07.progress] err != nil ==> faults > old(faults) || streamPos - old(streamPos) > 256 || (streamPos == old(streamPos) && expectedLen <= 0) || (dyntype(err) == *ClientError && dyntype(err.(*ClientError).Err) == *packet.ErrorResponseRTU && streamPos - old(streamPos) == 5 && stream[old(streamPos)+1] & 128 != 0)
 //@   ensures[C07.exception] streamLen - old(streamPos) == 5 && stream[old(streamPos)+1] & 128 != 0 && crcTrailer(stream[old(streamPos):old(streamPos)+5], 5) && expectedLen > 5 && faults == old(faults) ==> err != nil && dyntype(err) == *ClientError && dyntype(err.(*ClientError).Err) == *packet.ErrorResponseRTU && err.(*ClientError).Err.(*packet.ErrorResponseRTU).UnitID == stream[old(streamPos)] && err.(*ClientError).Err.(*packet.ErrorResponseRTU).Function == stream[old(streamPos)+1] - 128 && err.(*ClientError).Err.(*packet.ErrorResponseRTU).Code == stream[old(streamPos)+2]
 //@   ensures[C19] c.hooks != nil ==> hookReads - old(hookReads) == reads - old(reads)
@@ -264,6 +277,7 @@ package modbus
 //@     modifies received, streamPos, reads, lastN, lastErr, lastBuf, hookReads, faults, flushes
 //@     invariant faults >= old(faults) && streamPos <= streamLen
 //@     invariant 0 <= total && total <= 256 && total == streamPos - old(streamPos)
+//@     invariant[C07] !(total == 5 && received[1] & 128 != 0 && crcTrailer(received[0:5], 5))
 //@     invariant forall k in 0..total :: received[k] == stream[old(streamPos) + k]
 //@     invariant c.hooks != nil ==> hookReads - old(hookReads) == reads - old(reads)
 //@     invariant writes == old(writes) + 1 && bwCount == old(bwCount) + ite(c.hooks != nil, int(1), int(0)) && bpCount == old(bpCount) && parseCount == old(parseCount)
@@ -284,6 +298,9 @@ package modbus
 //@   ensures[C08] req != nil && c.serialPort == nil ==> err != nil && writes == old(writes) && reads == old(reads)
 //@   ensures[C08.classify] err != nil ==> req == nil || c.serialPort == nil || dyntype(err) == *ClientError || err == ctxErr || parseCount > old(parseCount)
 //@   ensures[C14] muState == 0
+//@   ensures[C12] err == nil ==> streamPos - old(streamPos) >= 4 && crcTrailer(stream[old(streamPos):streamPos], streamPos - old(streamPos))
+//@   ensures[C12] dyntype(err) == *packet.ErrorResponseRTU ==> streamPos - old(streamPos) == 5 && crcTrailer(stream[old(streamPos):streamPos], 5)
+//@   ensures[C12] dyntype(err) == *ClientError && dyntype(err.(*ClientError).Err) == *packet.ErrorResponseRTU ==> streamPos - old(streamPos) == 5 && crcTrailer(stream[old(streamPos):streamPos], 5)
 //@   ensures[C19] c.hooks != nil && parseCount > old(parseCount) ==> bpCount == old(bpCount) + 1 && parseCount == old(parseCount) + 1
 //@   ensures[C19] c.hooks != nil ==> hookReads - old(hookReads) == reads - old(reads)
 
